@@ -70,6 +70,7 @@ func round(s *slip.Scope, f slip.Object, args slip.List, depth int) slip.Values 
 	num, div = slip.NormalizeNumber(num, div)
 	checkDivisor(s, depth, f, args, div)
 
+top:
 	switch tn := num.(type) {
 	case slip.Fixnum:
 		d := div.(slip.Fixnum)
@@ -85,6 +86,12 @@ func round(s *slip.Scope, f slip.Object, args slip.List, depth int) slip.Values 
 		if r == slip.Fixnum(0) {
 			break
 		}
+		if tn == math.MinInt64 || d == math.MinInt64 {
+			// The magnitudes are not both fixnums so use bignums.
+			num = (*slip.Bignum)(big.NewInt(int64(tn)))
+			div = (*slip.Bignum)(big.NewInt(int64(d)))
+			goto top
+		}
 		ns := tn < slip.Fixnum(0)
 		if ns {
 			tn = -tn
@@ -95,8 +102,9 @@ func round(s *slip.Scope, f slip.Object, args slip.List, depth int) slip.Values 
 		}
 		q = tn / d
 		r = tn - q.(slip.Fixnum)*d
-		dif := r.(slip.Fixnum) * 2
-		if d < dif || (dif == d && q.(slip.Fixnum)%2 != 0) {
+		// Compare the remainder to the rest of the divisor, twice the remainder might not be a fixnum.
+		rest := d - r.(slip.Fixnum)
+		if rest < r.(slip.Fixnum) || (rest == r.(slip.Fixnum) && q.(slip.Fixnum)%2 != 0) {
 			q = q.(slip.Fixnum) + 1
 			r = tn - q.(slip.Fixnum)*d
 		}
